@@ -129,6 +129,20 @@ def alts_match(evs, end, alts):
             for (jt, jk), v in zip(e['args'], vals):
                 if v is None:
                     continue        # the reference leaves this value open on this alternative
+                if isinstance(v, tuple) and v[0] == 'bv':
+                    # integer reference given as a bit-vector term ('bv', term, width, signed): compared inside the bit-vector theory when
+                    # the JavaScript value carries a bit-vector view of that width, as integers otherwise
+                    if jk != 'int':
+                        ok = False
+                        break
+                    _, bt, bw, bsigned = v
+                    if getattr(jt, 'bv', None) and jt.w == bw:
+                        cs.append('(= %s %s)' % (jt.bv, bt))
+                    elif bsigned:
+                        cs.append('(= %s (let ((u (bv2int %s))) (ite (>= u %d) (- u %d) u)))' % (jt, bt, 1 << (bw - 1), 1 << bw))
+                    else:
+                        cs.append('(= %s (bv2int %s))' % (jt, bt))
+                    continue
                 if isinstance(v, tuple) and v[0] == 'f64eq':
                     # numeric equality of doubles (fp.eq: +0 = -0): for integer results compared in the floating-point domain
                     if jk not in ('f64', 'int'):
@@ -212,12 +226,26 @@ def program_source(cases):
     return ''.join(parts)
 
 
+class TermBV(str):
+    """An Int term that also has a bit-vector view (attribute bv, width w) with the same two's-complement pattern."""
+    bv = None
+    w = 0
+
+
 def obs_term(a):
     """SMT term + sort for one serialised observation argument."""
     if 'i64' in a:
         h, l = a['i64']
-        return '(+ (* %s 4294967296) %s)' % (h['i'], l['i']), 'int'
+        t = '(+ (* %s 4294967296) %s)' % (h['i'], l['i'])
+        if h.get('bv32') and l.get('bv32'):
+            t = TermBV(t)
+            t.bv, t.w = '(concat %s %s)' % (h['bv32'], l['bv32']), 64
+        return t, 'int'
     if 'i' in a:
+        if a.get('bv32'):
+            t = TermBV(a['i'])
+            t.bv, t.w = a['bv32'], 32
+            return t, 'int'
         return a['i'], 'int'
     if 'b' in a:
         return a['b'], 'bool'
